@@ -277,7 +277,7 @@ func TestC26_ExhaustiveMem(t *testing.T) {
 // before and after every reopen; proofs are checked at the reopen points and at the end.
 func TestC26_FileStoreReopen(t *testing.T) {
 	ev := harn.For("C26").Rule(c26Rule)
-	ev.Floor("file:reopen", "", 0.5)
+	ev.Floor("file:reopen", "file:cases", 0.5)
 	dir, err := os.MkdirTemp("", "verif-c26-")
 	if err != nil {
 		t.Fatal(err)
@@ -288,7 +288,7 @@ func TestC26_FileStoreReopen(t *testing.T) {
 	if harn.Thorough() {
 		maxN = 5000
 	}
-	harn.Check(t, 30, 900, func(t *rapid.T) {
+	harn.Check(t, 20, 360, func(t *rapid.T) {
 		caseNo++
 		var n int
 		switch rapid.IntRange(0, 3).Draw(t, "sizekind") {
@@ -420,6 +420,7 @@ func TestC26_FileStoreReopen(t *testing.T) {
 			t.Fatalf("GetRootWithNewLeaves(3) on file-backed tree of size %d differs from MTH", n)
 		}
 		sampleProofs("final", n)
+		ev.Class("file:cases")
 		ev.Case(notPow2(n), fmt.Sprintf("file seed=%d n=%d reopen=%v", seed, n, reopens))
 	})
 }
@@ -486,7 +487,7 @@ func TestC26_MutatedInclusion(t *testing.T) {
 	ev := harn.For("C26").Rule(c26Rule)
 	setups := c26BuildSetups(harn.Seed(), c26MutSizes)
 	ver := merkle.NewMerkleVerifier()
-	harn.Check(t, 30000, 1500000, func(t *rapid.T) {
+	harn.Check(t, 50000, 2400000, func(t *rapid.T) {
 		s := setups[rapid.IntRange(0, len(setups)-1).Draw(t, "tree")]
 		sz := rapid.IntRange(1, s.n).Draw(t, "size")
 		if rapid.Bool().Draw(t, "fullsize") {
@@ -600,7 +601,7 @@ func TestC26_MutatedConsistency(t *testing.T) {
 		t.Logf("witness %s: VerifyConsistency(1, 2, MTH(D[0:2]), MTH(D[0:2]), proof) = nil although MTH(D[0:1]) != MTH(D[0:2])", c26EqualRootsKey)
 	}
 	excl := harn.Known("C26", c26EqualRootsKey, still)
-	harn.Check(t, 30000, 1500000, func(t *rapid.T) {
+	harn.Check(t, 50000, 2400000, func(t *rapid.T) {
 		s := setups[rapid.IntRange(0, len(setups)-1).Draw(t, "tree")]
 		n := rapid.IntRange(1, s.n).Draw(t, "new")
 		if rapid.Bool().Draw(t, "fullsize") {
